@@ -287,6 +287,17 @@ def case_project(col, p):
         bd = Inference._project_params_down(bl, fixed)
         if list(bd) != [b for b, f in zip(bl, mask) if not f]:
             col.violation('C12:_project_params_down:none_entries', dict(p, fixed=fixed), {'got': list(bd)})
+    # the same pattern of fixed positions with OTHER fixed values, later in the same process (a likelihood profile does exactly this)
+    for offset in (20.0, -3.5, 10.0):
+        for mask in itertools.product((0, 1), repeat=k):
+            fixed = [float(offset + i) if f else None for i, f in enumerate(mask)]
+            free = [v for v, f in zip(vals, mask) if not f]
+            up = Inference._project_params_up(list(free), fixed)
+            col.tick(transitions=1)
+            n += 1
+            exp_up = [fx if fx is not None else v for v, fx in zip(vals, fixed)]
+            if list(np.atleast_1d(up)) != exp_up:
+                col.violation('C12:_project_params_up:result_depends_on_history', dict(p, fixed=fixed), {'got': list(np.atleast_1d(up)), 'exp': exp_up})
     # fixed_params None = identity; length mismatch rejected
     if list(Inference._project_params_down(list(vals), None)) != list(vals) or list(Inference._project_params_up(list(vals), None)) != list(vals):
         col.violation('C12:_project_params:none_is_not_identity', dict(p), '')
